@@ -23,7 +23,8 @@ RULE = ("DepositFlow family: schedules = command lines of the operators (deposit
         "truncated entries, swapped / missing / unknown public shares, other credentials / amount labels, partials over other "
         "messages / of another validator, groups below the threshold, duplicate groups, garbage, 401 404 500) and the partials a "
         "Byzantine operator posts (other credentials, other amount, its share of another validator, a validator that is not in the "
-        "lock); generated (a) by TLC simulation of DepositFlowGen (7 configurations) and (b) by a seeded random generator of scenarios "
+        "lock), calls of eth2util/deposit's NewMessage / VerifyDepositAmounts / DedupAmounts / MaxDepositAmount with amounts one Gwei "
+        "around every bound and written directories read back with ReadDepositDataFiles; generated (a) by TLC simulation of DepositFlowGen (7 configurations) and (b) by a seeded random generator of scenarios "
         "around the threshold.  Executed on the real CLI commands + app/obolapi.Client + eth2util/deposit against a scripted API "
         "over loopback HTTP, one command at a time; every trace validated by DepositFlowTrace.tla (linear)")
 ASSUMPTIONS = [
